@@ -2,6 +2,7 @@
 import json, os, sys, re
 from decimal import Decimal
 from verifkit.core import *
+from verifkit import front_cue
 
 THEOREMS = [
     "Cog.Sem.C01_codec_roundtrip_partial", "Cog.Sem.C01_object_roundtrip_partial",
@@ -343,7 +344,7 @@ def main():
         "source side: documents are drawn from the Src grammar and checked against the schema language's own validator (santhosh-tekuri/jsonschema, kin-openapi, cuelang) before use; encoding/json, the Go toolchain and those validators are trusted",
         "numbers restricted to integers and multiples of 0.25; date-time strings treated as opaque canonical RFC 3339 text",
     ]
-    hb, err = build_go("verifharness", "harness", files=HARNESS_BASE + ["lab_*.go", "src_*.go", "c01.go", "c01_src.go", "c01_front.go", "c01_front_oa.go"], tag="c01")
+    hb, err = build_go("verifharness", "harness", files=HARNESS_BASE + ["lab_*.go", "src_*.go", "c01.go", "c01_src.go", "c01_front.go", "c01_front_oa.go", "c01_front_cue.go"], tag="c01")
     c.oblige("harness builds against /repo working tree", hb is not None, err)
     # (c) pass widening speaks about the Go chain the code runs: regenerate Cog/Gen/Chains.lean (C06's extractor)
     try:
@@ -357,6 +358,8 @@ def main():
         c.finish("lake build", "n/a")
     if c.replay:
         rp = json.load(open(c.replay))
+        if rp.get("stream") == front_cue.STREAM:
+            sys.exit(0 if front_cue.replay(c, hb, rp) else 1)
         print(json.dumps(rp, indent=1)[:4000])
         sys.exit(1)
     quick = c.tier == "quick"
@@ -415,6 +418,7 @@ def main():
                          witness_case="oapinnullbool", witness_doc="null", witness_frag="false",
                          witness_text="null is accepted by kin-openapi for {type: boolean, nullable: true}, the schema is outside FragOA, null is not in srcDen of the real IR",
                          cov_key="parser_soundness_openapi", validator="kin-openapi's Schema.VisitJSON")
+    front_cue.tie(c, hb)   # (b) parser soundness (CUE): model of internal/simplecue on the view of the real cue.Value (verifkit/front_cue.py)
     c.finish("cd /verif/lean && lake build Cog.Props.C01 drv && lake env lean <#print axioms of the C01 theorems>",
              "Src terms (every construct of the grammar) rendered to JSON Schema, OpenAPI and CUE, real pipeline run, generated Go compiled; per case ~30 source-valid documents (reference-validated) decoded with the standard and the strict decoder and re-encoded; oracle = the property; Lean model `godec` must predict the re-encoded JSON; non-trivial = document with >= 6 nested values")
 
